@@ -272,6 +272,8 @@ fn gen_weights(r: &mut Rng, n: usize, zeros: bool) -> (&'static str, Vec<i64>) {
 }
 
 struct Case {
+    /// description of a large structured input (its points are not written into the JSON record)
+    desc: String,
     family: String,
     wfamily: String,
     d: usize,
@@ -288,7 +290,62 @@ struct Case {
     blk: usize,
 }
 
+/// Large structured inputs (n > 1024): grids numbered row by row with a row length that is a multiple of
+/// 1024, the same column-major, and point sets whose order is sorted inside every aligned block of 1024 but
+/// not across blocks.  A sort that trusts a block-local "already sorted" test leaves them unsorted.
+fn gen_big_case(r: &mut Rng) -> Case {
+    let variant = r.below(4);
+    let (cols, rows) = *r.pick(&[(1024usize, 2usize), (1024, 3), (1024, 4), (1024, 5), (1024, 8), (2048, 2), (2048, 3), (3072, 2)]);
+    let n = cols * rows;
+    let d = 2usize;
+    let (name, pts): (&str, Vec<Vec<f64>>) = match variant {
+        0 | 1 => ("grid_row_major", (0..n).map(|i| vec![(i % cols) as f64, (i / cols) as f64]).collect()),
+        2 => ("grid_column_major", (0..n).map(|i| vec![(i / rows) as f64, (i % rows) as f64]).collect()),
+        _ => {
+            // x strictly increasing inside every block of 1024 entries, the blocks in a shuffled order
+            let nb = n / 1024;
+            let mut order: Vec<usize> = (0..nb).collect();
+            for i in (1..nb).rev() {
+                let j = r.below(i as u64 + 1) as usize;
+                order.swap(i, j);
+            }
+            let interleave = r.chance(1, 2);
+            (
+                "blockwise_sorted_shuffled_blocks",
+                (0..n)
+                    .map(|i| {
+                        let (b, o) = (order[i / 1024], i % 1024);
+                        let x = if interleave { (o * nb + b) as f64 } else { (b * 1024 + o) as f64 };
+                        vec![x, unit(r)]
+                    })
+                    .collect(),
+            )
+        }
+    };
+    let ws: Vec<i64> = if r.chance(1, 2) { vec![1; n] } else { (0..n).map(|_| r.range(1, 9)).collect() };
+    let k = *r.pick(&[2usize, 3, 4, 4, 8]);
+    let max_iter = *r.pick(&[1usize, 1, 1, 2]);
+    Case {
+        desc: format!("{} {} x {} (row-major grid: point i = (i mod {}, i div {}); column-major: (i div {}, i mod {}))", name, cols, rows, cols, cols, rows, rows),
+        family: format!("big/{}", name),
+        wfamily: "w_big".to_string(),
+        d,
+        pts,
+        ws,
+        wexp: 0,
+        wsh: vec![0; n],
+        conc: 0,
+        k,
+        max_iter,
+        pool: *r.pick(&[1usize, 2, 4, 8, 16]),
+        blk: 1,
+    }
+}
+
 fn gen_case(r: &mut Rng, tier: &str, allow_conc: bool) -> Case {
+    if allow_conc && r.chance(if tier == "thorough" { 4 } else { 12 }, 1000) {
+        return gen_big_case(r);
+    }
     let big = tier == "thorough";
     let d = if r.chance(1, 2) { 2 } else { 3 };
     let stream = match r.below(100) {
@@ -385,6 +442,7 @@ fn gen_case(r: &mut Rng, tier: &str, allow_conc: bool) -> Case {
         pool = *r.pick(&[0usize, 1, 2, 4]); // 0 = rayon's global pool, shared by the simultaneous calls
     }
     Case {
+        desc: String::new(),
         family: format!("{}/{}", stream, pf),
         wfamily: wf.to_string(),
         d,
@@ -682,7 +740,9 @@ fn main() {
             }
             _ => {}
         }
+        let big = c.pts.len() > 600;
         let sorts = match &tree {
+            Some(_) if big => Vec::new(), // the model is not re-run on large inputs (RunC11.eval_big)
             Some(t) => {
                 if c.d == 2 {
                     sorts_of::<2>(&c, t)
@@ -738,22 +798,41 @@ fn main() {
             .iter()
             .map(|p| format!("[{}]", p.iter().map(|x| format!("{:?}", x)).collect::<Vec<_>>().join(",")))
             .collect();
+        let short = |g: &PartRes| match g {
+            Guarded::Done(Ok(p)) => {
+                let mut ids: Vec<usize> = p.clone();
+                ids.sort_unstable();
+                ids.dedup();
+                format!("{{\"ok_first_64\":{},\"distinct_ids\":{}}}", json_usizes(&p[..p.len().min(64)]), json_usizes(&ids))
+            }
+            other => json_impl_partition(other),
+        };
+        let (pts_field, ws_field, impl_field, seq_field) = if big {
+            (
+                json_str(&format!("{} points: {}", c.pts.len(), c.desc)),
+                json_str(&format!("{} weights, first 16: {:?}", c.ws.len(), &c.ws[..16])),
+                short(&res),
+                short(&seq),
+            )
+        } else {
+            (format!("[{}]", pts_json.join(",")), json_i64s(&c.ws), json_impl_partition(&res), json_impl_partition(&seq))
+        };
         let json = format!(
-            "{{\"weight_family\":\"{}\",\"dim\":{},\"points\":[{}],\"weights\":{},\"weight_exponent\":{},\"weight_extra_shifts\":{},\"simultaneous_calls\":{},\"part_count\":{},\"max_iter\":{},\"pool\":{},\"scheme_leaves\":{},\"sort_replays\":{},\"impl\":{},\"impl_one_thread\":{}}}",
+            "{{\"weight_family\":\"{}\",\"dim\":{},\"points\":{},\"weights\":{},\"weight_exponent\":{},\"weight_extra_shifts\":{},\"simultaneous_calls\":{},\"part_count\":{},\"max_iter\":{},\"pool\":{},\"scheme_leaves\":{},\"sort_replays\":{},\"impl\":{},\"impl_one_thread\":{}}}",
             c.wfamily,
             c.d,
-            pts_json.join(","),
-            json_i64s(&c.ws),
+            pts_field,
+            ws_field,
             c.wexp,
-            json_usizes(&c.wsh.iter().map(|x| *x as usize).collect::<Vec<_>>()),
+            if big { "[]".to_string() } else { json_usizes(&c.wsh.iter().map(|x| *x as usize).collect::<Vec<_>>()) },
             c.conc,
             c.k,
             c.max_iter,
             c.pool,
             tree.as_ref().map_or(0, leaf_count),
             sorts.len(),
-            json_impl_partition(&res),
-            json_impl_partition(&seq)
+            impl_field,
+            seq_field
         );
         let key = format!(
             "{}|{:?}|{}|{}|{:?}|{:?}|{}|{}|{}",
